@@ -3,7 +3,7 @@ import glob, json, os
 from vlib import *
 
 RULE = ("doc: Roboto / DejaVu Sans / SourceSans3 (CFF) (thorough: + DejaVu Serif) x random strings over each font's covered repertoire "
-        "(ASCII, Latin-1/Extended-A, Greek, Cyrillic, astral where the font has astral glyphs; repeats, spaces, 1-3 lines, one or two fonts "
+        "(ASCII, Latin-1/Extended-A, Greek, Cyrillic, astral where the font has astral glyphs; runs of 100..300 consecutive code points; repeats, spaces, 1-3 lines, one or two fonts "
         "on one page, compressed and uncompressed streams) -> Document with custom fonts -> written PDF -> library extraction and /W, "
         "/CIDToGIDMap, /ToUnicode, embedded program and show operands pulled from the file; Coq: declared width of each used character = "
         "hmtx advance scaled, every shown CID resolves to a glyph of the embedded program with the original advance, ToUnicode reference "
